@@ -46,7 +46,8 @@ RULE = ("random histories of 1-40 public calls on one MultiplexHypergraph (3-6 n
         "send the object 1-3 times through save+load (binary, text), pickle, deepcopy, copy, expose/populate or a rebuild by the "
         "constructor, at position 0 or later, and continue on the result or the original (both are queried, the other one is then "
         "changed by the caller); both weightedness settings, 45 % of the unweighted histories promoted by add_edges(weights=...) and "
-        "continued with real weights; 15 % built through the constructor): add_node(s), add_edge (permuted node order, a pool "
+        "continued with real weights; 15 % built through the constructor; half of the histories carry 1-3 calls of the raw surface: set_edge_list / set_adj_dict / set_existing_layers / populate_from_dict fed with the getters' results, set_existing_layers with the "
+        "layers in use plus extra names): add_node(s), add_edge (permuted node order, a pool "
         "of 3-5 node sets re-used across layers), add_edges (same node set in several layers, also twice in the same layer, "
         "wrong-length layer/weight/metadata lists), remove_edge, remove_node with both keep_edges, set_weight, all metadata "
         "setters; 10-15 % malformed calls. Every call gets fresh equal label objects, a random container type per node set / "
@@ -130,6 +131,28 @@ def _orderable(xs):
 # extension round: expose_attributes_for_hashing sorts (node tuple, layer) keys - asked where the layer names can be ordered
 LAYERS_ORDERABLE = [_orderable(lb["layers"]) for lb in LABELINGS]
 LAYERS_MONOTONE = [o and sorted(lb["layers"]) == lb["layers"] for o, lb in zip(LAYERS_ORDERABLE, LABELINGS)]
+
+
+def _classes(xs):
+    """comparability class of every layer name: `a < b` is defined iff the classes are equal (second extension round)"""
+    reps, cls = [], []
+    for a in xs:
+        for i, r in enumerate(reps):
+            try:
+                a < r
+                r < a
+                cls.append(i)
+                break
+            except TypeError:
+                pass
+        else:
+            reps.append(a)
+            cls.append(len(reps) - 1)
+    return cls
+
+
+LAYER_CLASSES = [_classes(lb["layers"]) for lb in LABELINGS]
+assert all((len(set(c)) == 1) == o for c, o in zip(LAYER_CLASSES, LAYERS_ORDERABLE))
 # reserved metadata fields written by the text format (tokens of the model): "layer" -> 200 : 300 + rank, "weight" -> 201 : 400 + quanta
 F_LAYER, F_WEIGHT, T_LAYER, T_WEIGHT = 200, 201, 300, 400
 
@@ -292,6 +315,10 @@ class Oracle:
             if k not in self.E or op[3] not in self.E[k][1]:
                 return "rej"
             del self.E[k][1][op[3]]
+        elif t == "rawecho":
+            pass                       # a raw setter fed with its getter's result: nothing moves
+        elif t == "setlayers":
+            self.reg = {l for (_, l) in self.E} | set(op[1])
         else:
             raise AssertionError(op)
         return "ok"
@@ -390,6 +417,12 @@ class Oracle:
         if t in ("overlap", "overlapin"):
             e = frozenset(q[1])
             return str(sum(v[0] for (e2, _), v in self.E.items() if e2 == e))
+        if t == "hashviewt":
+            # layer names of several comparability classes: the call raises iff a node set lives in two layers of different classes
+            cls = q[1]
+            if any(e == e2 and cls[l] != cls[l2] for (e, l) in self.E for (e2, l2) in self.E):
+                return "rej"
+            t = "hashview"
         if t == "hashview":
             # expose_attributes_for_hashing in the statement's terms: flag, hypergraph metadata, the entries of the map in key
             # order (node tuple, then layer), the nodes in label order - ORDERED listings
@@ -815,6 +848,24 @@ class Real:
                 e = self.E(op[1], rs)
                 used.append(e)
                 call(h.remove_attr_from_edge_metadata, [e, self.L(op[2], rs), f"f{op[3]}"], [], rs, ["edge", "layer", "field"])
+            elif t == "rawecho":
+                # second extension round: a raw setter fed with what the matching getter returns (the object or an equal copy)
+                cp = rs.random() < 0.5
+                if op[1] == "el":
+                    d = h.get_edge_list()
+                    h.set_edge_list(dict(d) if cp else d)
+                elif op[1] == "adj":
+                    d = h.get_adj_dict()
+                    h.set_adj_dict({k: list(v) for k, v in d.items()} if cp else d)
+                elif op[1] == "lay":
+                    d = h.get_existing_layers()
+                    h.set_existing_layers(set(d) if cp else d)
+                else:
+                    d = h.expose_data_structures()
+                    h.populate_from_dict(dict(d) if cp else d)
+            elif t == "setlayers":
+                # a registry handed in from outside: the layers in use and some more names, as a fresh set of fresh objects
+                h.set_existing_layers({x[1] for x in h.get_edges()} | {self.L(l, rs) for l in op[1]})
             else:
                 raise AssertionError(op)
             res = "ok"
@@ -926,7 +977,7 @@ class Real:
             return fq(call(edge_overlap, [h, self.E(q[1], rs)], [], rs, ["h", "edge"]))
         if t == "dumpkeys":
             return items(str(k) for k in h.expose_data_structures())
-        if t == "hashview":
+        if t in ("hashview", "hashviewt"):
             d = h.expose_attributes_for_hashing()
             if set(d) != {"type", "weighted", "hypergraph_metadata", "edges", "nodes"} or d["type"] != "MultiplexHypergraph":
                 return "weird-keys"
@@ -935,7 +986,11 @@ class Real:
                 return "weird-items"
             # the listing must be ascending in Python's own order (asked only where the layer names are mutually orderable)
             for a, b in zip(es, es[1:]):
-                if not a["nodes"] < b["nodes"]:
+                try:
+                    up = a["nodes"] < b["nodes"]
+                except TypeError:      # a listing was produced although two of its keys cannot be compared: not `sorted`'s order
+                    return "listing-of-unorderable-keys"
+                if not up:
                     return "unsorted-edges"
             for a, b in zip(ns, ns[1:]):
                 if not a["node"] < b["node"]:
@@ -977,6 +1032,15 @@ class Real:
         if t == "aggweighted":
             return "1" if a.is_weighted() is True else ("0" if a.is_weighted() is False else "weird")
         raise AssertionError(q)
+
+    def plain_layers(self):
+        """every layer name among the record keys is an object of the labeling's own type (the harness also hands in equal
+        objects of OTHER types - numpy scalars, 2019.0 for 2019 - whose `<` against a tuple or a string need not raise): only then
+        is the comparability class of a name the one of the labeling"""
+        try:
+            return all(type(k[1]) is type(self.lab["layers"][self.rl(k[1])]) for k in self.h.get_edge_list())
+        except Exception:
+            return False
 
     def reg_order(self):
         """the order in which the set of layer names iterates right now (ranks)"""
@@ -1209,6 +1273,10 @@ def w_op(op):
         return f"setattre {hgxv.enc_list(op[1])} {op[2]} {op[3]} {op[4]}"
     if t == "delattre":
         return f"delattre {hgxv.enc_list(op[1])} {op[2]} {op[3]}"
+    if t == "rawecho":
+        return f"rawecho {op[1]}"
+    if t == "setlayers":
+        return f"setlayers {hgxv.enc_list(op[1])}"
     raise AssertionError(op)
 
 
@@ -1289,6 +1357,8 @@ def w_q(q, order=()):
         return f"q {t} {hgxv.enc_list(q[1])} {q[2]}"
     if t == "overlap":
         return f"q overlap {hgxv.enc_list(q[1])}"
+    if t == "hashviewt":
+        return f"q hashviewt {hgxv.enc_list(q[1])}"
     return "q " + " ".join(("b" if isinstance(x, str) and x[:1] == "b" and x[1:].isdigit() else str(x)) for x in q)
 
 
@@ -1524,8 +1594,18 @@ def gen_case(rng):
         kind = rng.choice(["json", "json", "hgx", "pickle", "rebuild"])
         ops.append(["via", kind, rng.choice(["go", "stay"])])
         nonp = nonp or kind == "json"
+    qseed, sty = rng.randrange(1 << 30), rng.randrange(1 << 30)
+    # second extension round: calls of the raw surface inside the history (own PRNG: the public part of the case is as before)
+    r2 = random.Random(qseed ^ 0x5EED)
+    if r2.random() < 0.5:
+        for _ in range(r2.choice([1, 2, 3])):
+            if r2.random() < 0.7:
+                rop = ["rawecho", r2.choice(["el", "adj", "lay", "pop"])]
+            else:
+                rop = ["setlayers", r2.sample(range(nl), r2.randint(0, min(2, nl)))]
+            ops.insert(r2.randint(0, len(ops)), rop)
     return {"n": n, "nl": nl, "weighted": weighted, "hm0": hm0, "ctor": ctor, "ops": ops, "pool": pool, "nonp": nonp,
-            "labeling": labeling, "qseed": rng.randrange(1 << 30), "sty": rng.randrange(1 << 30)}
+            "labeling": labeling, "qseed": qseed, "sty": sty}
 
 
 def digest_queries(case, qrng):
@@ -1536,6 +1616,8 @@ def digest_queries(case, qrng):
           ["aggnodes"], ["aggedges"], ["agghmeta"], ["aggweighted"], ["edgetable"], ["adjtable"]]
     if LAYERS_ORDERABLE[case["labeling"]]:
         qs.append(["hashview"])
+    else:       # second extension round: names of several comparability classes - raises iff a node set lives in two such layers
+        qs.append(["hashviewt", LAYER_CLASSES[case["labeling"]]])
     BOTH = ["b00", "b01", "b10", "b12", "b21"]
     if qrng.random() < 0.4:
         qs.append(["degseq", qrng.choice(BOTH)])
@@ -1648,8 +1730,14 @@ def _run_case(ctx, drv, case):
             use_snap = not extra and zlib.crc32(f"snap/{idx}/{sty}/{len(lines)}/{what}".encode()) % 10 < 6
             snap = real.snapshot() if use_snap else None
             qs = digest_queries(case, qrng) + [list(q) for q in extra]
+            if not real.plain_layers():
+                qs = [q for q in qs if q[0] != "hashviewt"]
             order = real.reg_order()
             ra = [real.query(q) for q in qs]
+            for q, a in zip(qs, ra):
+                if q[0] == "hashviewt":
+                    k = "hashing_view_unorderable_names_raises" if a == "rej" else "hashing_view_unorderable_names_answers"
+                    info[k] = info.get(k, 0) + 1
             ro = [real.query(q) for q in ORACLE_ONLY]
             o2, cand, diff = resolve(orc, cands, qs + ORACLE_ONLY, ra + ro)
             if o2 is None:
@@ -1844,6 +1932,9 @@ def evaluate(ctx, drv, case, do_shrink=True):
     ctx.count("accepted_calls_on_such_objects", info["after_via"])
     ctx.count("rejected_insertions_naming_an_unregistered_layer", info["rej_fresh_layer"])
     ctx.count("constructor_calls_refused", info.get("ctor_refused", 0))
+    ctx.count("hashing_view_unorderable_names_raises", info.get("hashing_view_unorderable_names_raises", 0))
+    ctx.count("hashing_view_unorderable_names_answers", info.get("hashing_view_unorderable_names_answers", 0))
+    ctx.count("raw_setter_calls_in_histories", sum(1 for op in case["ops"] if op[0] in ("rawecho", "setlayers")))
     for k, v in info["stats"].items():
         ctx.count(k, v)
     ctx.count(f"labeling_{case['labeling']}")
@@ -1865,6 +1956,12 @@ def evaluate(ctx, drv, case, do_shrink=True):
 
 # the defects of the unrepaired tree, as fixed regression inputs (replayed first on every run)
 SEEDS = [
+    # second extension round: raw setters inside a history; layer names 2019 / 'all-time' / None - one node set in two layers of
+    # different comparability classes (the hashing view raises), the clash removed again (it answers)
+    {"n": 4, "nl": 4, "weighted": True, "hm0": [], "ctor": None, "pool": [[0, 1], [1, 2]], "labeling": 11, "qseed": 13, "sty": 13,
+     "ops": [["addedge", [0, 1], 0, 8, None], ["rawecho", "el"], ["addedge", [1, 0], 1, 4, [[100, 5]]], ["rawecho", "adj"],
+             ["setlayers", [3]], ["addedge", [1, 0], 2, 6, None], ["rawecho", "pop"], ["addedge", [1, 2], 3, 2, None],
+             ["setlayers", []], ["rawecho", "lay"], ["rmedge", [0, 1], 2], ["rmnode", 1, True], ["setlayers", [0, 1]]]},
     {"n": 3, "nl": 2, "weighted": True, "hm0": [], "ctor": None, "pool": [[0, 1], [0, 1, 2]], "labeling": 0, "qseed": 1,
      "ops": [["addedge", [0, 1], 0, 8, None], ["rmedge", [1, 0], 0]]},                                           # D15
     {"n": 3, "nl": 2, "weighted": True, "hm0": [], "ctor": None, "pool": [[0, 1], [0, 1, 2]], "labeling": 2, "qseed": 2,
